@@ -7,6 +7,7 @@
 //! usage: c04 run <seed> <quick|thorough>
 //!        c04 worker <seed> <tier> <from> <n>
 //!        c04 replay <json>
+//!        c04 gen <seed> <tier> <index>
 //!
 //! A real `Ok` where the mapping says the types differ, or a real refusal of
 //! the true signature, is an impl violation (the key names the mismatch
@@ -40,6 +41,9 @@ enum ST {
     /// an unconstrained integer / float literal type (filtermap payloads only)
     IntLit,
     FloatLit,
+    /// a type variable nothing resolves (filtermap payloads only: the element
+    /// type of `None` / `[]`, the other side of a lone `Ok(…)`); no Rust counterpart
+    Hole,
     /// script-declared `record`/`enum` that bears a name the language reserves
     /// in the global scope (`record i64 { … }`, `enum Option[T] { … }`): the
     /// type `pkg.<name>[args]`, which has no Rust counterpart
@@ -175,6 +179,7 @@ impl ST {
         match self {
             ST::Shadow(n, _) if CTORS.contains(n) => "script-type-named-like-constructor",
             ST::Shadow(..) => "script-type-named-like-primitive",
+            ST::Hole => "unresolved-type-variable",
             ST::Opt(t) | ST::List(t) => t.why_none(),
             ST::Res(a, b) | ST::Ver(a, b) => {
                 if a.map().is_none() { a.why_none() } else { b.why_none() }
@@ -196,7 +201,7 @@ impl ST {
             ST::Rec => "{a: i32, b: String}".into(),
             ST::NRec => "R0".into(),
             ST::NEnum => "E0".into(),
-            ST::IntLit | ST::FloatLit => unreachable!("literal types have no syntax"),
+            ST::IntLit | ST::FloatLit | ST::Hole => unreachable!("literal types and unresolved variables have no syntax"),
             ST::Opt(t) => {
                 if p.chance(1, 2) {
                     format!("{}?", t.src(p, cx))
@@ -243,6 +248,7 @@ impl ST {
             ST::NEnum => format!("(n {PKG_SCOPE} #{})", hex("E0")),
             ST::IntLit => "intvar".into(),
             ST::FloatLit => "floatvar".into(),
+            ST::Hole => "(var 7)".into(),
             ST::Opt(t) => named("Option", &[t]),
             ST::List(t) => named("List", &[t]),
             ST::Res(a, b) => named("Result", &[a, b]),
@@ -262,7 +268,7 @@ impl ST {
             ST::IntLit => RT::Leaf("i32"),
             ST::FloatLit => RT::Leaf("f64"),
             ST::Reg(k) => RT::Val(*k),
-            ST::Never | ST::Rec | ST::NRec | ST::NEnum | ST::Shadow(..) => return None,
+            ST::Never | ST::Rec | ST::NRec | ST::NEnum | ST::Shadow(..) | ST::Hole => return None,
             ST::Opt(t) => RT::Opt(Box::new(t.map()?)),
             ST::List(t) => RT::List(Box::new(t.map()?)),
             ST::Res(a, b) => RT::Res(Box::new(a.map()?), Box::new(b.map()?)),
@@ -301,6 +307,158 @@ impl ST {
             other => other.clone(),
         }
     }
+}
+
+impl ST {
+    /// does the type contain a literal type variable (at any depth)?
+    fn has_literal(&self) -> bool {
+        match self {
+            ST::IntLit | ST::FloatLit => true,
+            ST::Opt(t) | ST::List(t) => t.has_literal(),
+            ST::Res(a, b) | ST::Ver(a, b) => a.has_literal() || b.has_literal(),
+            _ => false,
+        }
+    }
+    /// depth at which the deepest literal type variable sits (0 = the type itself)
+    fn literal_depth(&self) -> Option<usize> {
+        match self {
+            ST::IntLit | ST::FloatLit => Some(0),
+            ST::Opt(t) | ST::List(t) => t.literal_depth().map(|d| d + 1),
+            ST::Res(a, b) | ST::Ver(a, b) => a.literal_depth().max(b.literal_depth()).map(|d| d + 1),
+            _ => None,
+        }
+    }
+}
+
+/// The payload type a filtermap body can *build* so that it is the type `want`
+/// once the literal defaults are applied: a parameter of exactly that type, an
+/// unconstrained integer / float literal for `i32` / `f64`, `()`, and
+/// `Some(…)`, `[…]`, `Ok(…)`/`Err(…)`, `Verdict.Accept(…)`/`Verdict.Reject(…)`
+/// around buildable types. `None`: the body cannot produce a value of the type.
+fn buildable(want: &ST, params: &[ST], cx: &Cx) -> Option<ST> {
+    // In a script that re-declares reserved names a parameter's written type
+    // may denote the script's own type: only literals and constructors there.
+    if cx.shadow.is_empty() && params.contains(want) {
+        return Some(want.clone());
+    }
+    let params = if cx.shadow.is_empty() { params } else { &[] };
+    Some(match want {
+        ST::Prim("i32") => ST::IntLit,
+        ST::Prim("f64") => ST::FloatLit,
+        ST::Unit => ST::Unit,
+        ST::Opt(t) => ST::Opt(Box::new(buildable(t, params, cx)?)),
+        ST::List(t) => ST::List(Box::new(buildable(t, params, cx)?)),
+        ST::Res(a, b) => ST::Res(Box::new(buildable(a, params, cx)?), Box::new(buildable(b, params, cx)?)),
+        // `Verdict.Accept(…)` names the type: not when the script has its own `Verdict`
+        ST::Ver(a, b) if cx.shadowed("Verdict").is_none() => {
+            ST::Ver(Box::new(buildable(a, params, cx)?), Box::new(buildable(b, params, cx)?))
+        }
+        _ => return None,
+    })
+}
+
+/// Expressions whose types, unified (as the payloads of several `accept`
+/// statements of one filtermap are), give exactly the payload type `t`.
+/// Empty: nothing can be written (`Result[?, ?]`).
+fn exprs_of(t: &ST, params: &[ST], neg: bool) -> Vec<String> {
+    if let Some(i) = params.iter().position(|q| q == t) {
+        return vec![format!("p{i}")];
+    }
+    let wrap = |t: &ST, l: &str, r: &str| -> Vec<String> {
+        exprs_of(t, params, neg).into_iter().map(|e| format!("{l}{e}{r}")).collect()
+    };
+    match t {
+        // a negated literal is an integer variable that must be signed: still `i32`
+        ST::IntLit => vec![if neg { "-70000".into() } else { "70000".into() }],
+        ST::FloatLit => vec![if neg { "-0.5".into() } else { "0.5".into() }],
+        ST::Unit => vec!["()".into()],
+        ST::Opt(x) if **x == ST::Hole => vec!["None".into()],
+        ST::Opt(x) => wrap(x, "Some(", ")"),
+        ST::List(x) if **x == ST::Hole => vec!["[]".into()],
+        ST::List(x) => {
+            // the elements of a list literal are unified with each other
+            let es = exprs_of(x, params, neg);
+            if es.is_empty() { vec![] } else { vec![format!("[{}]", es.join(", "))] }
+        }
+        ST::Res(a, b) => {
+            let mut v = if **a == ST::Hole { vec![] } else { wrap(a, "Ok(", ")") };
+            if **b != ST::Hole {
+                v.extend(wrap(b, "Err(", ")"));
+            }
+            v
+        }
+        ST::Ver(a, b) => {
+            let mut v = if **a == ST::Hole { vec![] } else { wrap(a, "Verdict.Accept(", ")") };
+            if **b != ST::Hole {
+                v.extend(wrap(b, "Verdict.Reject(", ")"));
+            }
+            v
+        }
+        _ => vec![],
+    }
+}
+
+/// The values of `exprs_of(t, …)`, in the same order, as Rust's `Debug` prints
+/// them once they crossed the boundary under the image of `t` (parameters
+/// carry the fixed arguments of `family::callable!`: `true`, `7`).
+fn vals_of(t: &ST, params: &[ST], neg: bool) -> Vec<String> {
+    if let Some(i) = params.iter().position(|q| q == t) {
+        return match &params[i] {
+            ST::Prim("bool") => vec!["true".into()],
+            ST::Prim("u8") => vec!["7".into()],
+            _ => vec![],
+        };
+    }
+    let wrap = |t: &ST, l: &str, r: &str| -> Vec<String> {
+        vals_of(t, params, neg).into_iter().map(|e| format!("{l}{e}{r}")).collect()
+    };
+    match t {
+        ST::IntLit => vec![if neg { "-70000".into() } else { "70000".into() }],
+        ST::FloatLit => vec![if neg { "-0.5".into() } else { "0.5".into() }],
+        ST::Unit => vec!["()".into()],
+        ST::Opt(x) if **x == ST::Hole => vec!["None".into()],
+        ST::Opt(x) => wrap(x, "Some(", ")"),
+        // `List`'s `Debug` prints `List([…])`
+        ST::List(x) if **x == ST::Hole => vec!["List([])".into()],
+        ST::List(x) => {
+            let es = vals_of(x, params, neg);
+            if es.is_empty() { vec![] } else { vec![format!("List([{}])", es.join(", "))] }
+        }
+        ST::Res(a, b) => {
+            let mut v = if **a == ST::Hole { vec![] } else { wrap(a, "Ok(", ")") };
+            if **b != ST::Hole {
+                v.extend(wrap(b, "Err(", ")"));
+            }
+            v
+        }
+        ST::Ver(a, b) => {
+            let mut v = if **a == ST::Hole { vec![] } else { wrap(a, "Accept(", ")") };
+            if **b != ST::Hole {
+                v.extend(wrap(b, "Reject(", ")"));
+            }
+            v
+        }
+        _ => vec![],
+    }
+}
+
+/// `t` with one component below a constructor left unresolved: the payload
+/// `Some(70000)` becomes `None`, `[[0.5]]` becomes `[[]]`, `Ok(1)`+`Err(0.5)`
+/// loses one of the two. `None` if `t` has no constructor.
+fn with_hole(t: &ST, params: &[ST], p: &mut Prng) -> Option<ST> {
+    let neg = false;
+    let spots = t.count_nodes();
+    for _ in 0..8 {
+        let mut k = 1 + p.below(spots.max(2) as u64 - 1) as usize;
+        if k >= spots {
+            continue;
+        }
+        let t2 = t.rewrite(&mut k, &mut |_x: &ST| ST::Hole);
+        if t2 != *t && !exprs_of(&t2, params, neg).is_empty() {
+            return Some(t2);
+        }
+    }
+    None
 }
 
 /// The script type a Rust type is the image of; `Val<Unreg>` has none — the
@@ -372,6 +530,9 @@ enum Side {
     Param(usize),
     IntLit,
     FloatLit,
+    /// a payload the body builds (`Some(70000)`, `[p0, p0]`, `Ok(1)` and
+    /// `Err(0.5)` in two statements): the type inference gives it this type
+    Built(ST),
 }
 
 #[derive(Clone, Debug)]
@@ -412,6 +573,7 @@ impl Decl {
             Side::Param(i) => self.params[*i].clone(),
             Side::IntLit => ST::IntLit,
             Side::FloatLit => ST::FloatLit,
+            Side::Built(t) => t.clone(),
         }
     }
 
@@ -434,32 +596,77 @@ impl Decl {
                 )
             }
             Kind::Filtermap(a, r) => {
-                let stmt = |kw: &str, s: &Side| match s {
-                    Side::Unused => None,
-                    Side::NoPayload => Some(kw.to_string()),
-                    Side::Param(i) => Some(format!("{kw} p{i}")),
-                    Side::IntLit => Some(format!("{kw} 1")),
-                    Side::FloatLit => Some(format!("{kw} 1.5")),
+                // the statements of the body: one per payload expression
+                let stmts = |kw: &str, s: &Side| -> Vec<String> {
+                    match s {
+                        Side::Unused => vec![],
+                        Side::NoPayload => vec![kw.to_string()],
+                        Side::Param(i) => vec![format!("{kw} p{i}")],
+                        Side::IntLit => vec![format!("{kw} 1")],
+                        Side::FloatLit => vec![format!("{kw} 1.5")],
+                        Side::Built(t) => {
+                            let ps: &[ST] = if cx.shadow.is_empty() { &self.params } else { &[] };
+                            exprs_of(t, ps, self.negated()).into_iter().map(|e| format!("{kw} {e}")).collect()
+                        }
+                    }
                 };
-                let body = match (stmt("accept", a), stmt("reject", r)) {
-                    (Some(x), Some(y)) => format!("if true {{ {x} }} else {{ {y} }}"),
-                    (Some(x), None) => x,
-                    (None, Some(y)) => y,
-                    (None, None) => unreachable!(),
-                };
+                let mut all = stmts("accept", a);
+                all.extend(stmts("reject", r));
+                assert!(!all.is_empty(), "a filtermap uses at least one side");
+                // if true { s1 } else { if true { s2 } else { … sn } }
+                let mut body = all.pop().unwrap();
+                while let Some(st) = all.pop() {
+                    body = format!("if true {{ {st} }} else {{ {body} }}");
+                }
                 format!("filtermap {}({}) {{ {body} }}\n", self.name, params.join(", "))
             }
             Kind::Test => format!("test {} {{ accept }}\n", self.name),
         }
     }
 
+    fn negated(&self) -> bool {
+        // every third filtermap writes its literals negated
+        self.name[1..].parse::<usize>().is_ok_and(|n| n % 3 == 2)
+    }
+
+    /// What a call (arguments `true` / `7`) of this filtermap returns, as
+    /// `Debug` prints it: the body runs its first statement. `None`: not a
+    /// filtermap whose payloads the harness can evaluate.
+    fn call_value(&self, cx: &Cx) -> Option<String> {
+        let Kind::Filtermap(a, r) = &self.kind else { return None };
+        if !cx.shadow.is_empty() {
+            return None;
+        }
+        let val = |s: &Side| -> Option<Option<String>> {
+            Some(match s {
+                Side::Unused => None,
+                Side::NoPayload => Some("()".to_string()),
+                Side::Param(i) => Some(vals_of(&self.params[*i], &self.params, false).into_iter().next()?),
+                Side::IntLit => Some("1".to_string()),
+                Side::FloatLit => Some("1.5".to_string()),
+                Side::Built(t) => Some(vals_of(t, &self.params, self.negated()).into_iter().next()?),
+            })
+        };
+        match (val(a)?, val(r)?) {
+            (Some(x), _) => Some(format!("Accept({x})")),
+            (None, Some(y)) => Some(format!("Reject({y})")),
+            (None, None) => None,
+        }
+    }
+
     fn sexp(&self, cx: &Cx) -> String {
-        format!(
-            "(fn #{} ({}) {})",
-            hex(&self.key()),
-            self.params.iter().map(|t| t.sexp(cx)).collect::<Vec<_>>().join(" "),
-            self.ret.sexp(cx)
-        )
+        let params = self.params.iter().map(|t| t.sexp(cx)).collect::<Vec<_>>().join(" ");
+        if let Kind::Filtermap(a, r) = &self.kind {
+            // a filtermap goes to the model as what the body does with each side
+            // (`unused`, or the type of the payload); the model derives the
+            // signature (`filtermapSignature`: fresh variables, `force_filtermap_types`)
+            let side = |s: &Side| match s {
+                Side::Unused => "unused".to_string(),
+                other => self.side_ty(other).sexp(cx),
+            };
+            return format!("(fm #{} ({params}) {} {})", hex(&self.key()), side(a), side(r));
+        }
+        format!("(fn #{} ({params}) {})", hex(&self.key()), self.ret.sexp(cx))
     }
 
     fn show(&self, cx: &Cx) -> String {
@@ -674,6 +881,8 @@ fn variant(p: &mut Prng, e: &Entry, which: u64, cx: &Cx) -> (Vec<ST>, ST, &'stat
             }
             if hit { "named-like-primitive" } else { "exact" }
         }
+        // the signature itself stays; the caller leaves a component of a built payload unresolved
+        13 => "exact",
         8 => {
             // a type with no Rust counterpart somewhere
             let repl = [ST::Rec, ST::NRec, ST::NEnum][p.below(3) as usize].clone();
@@ -940,7 +1149,7 @@ struct Plan {
 }
 
 fn boundary_count(thorough: bool) -> u64 {
-    if thorough { 40 } else { 12 }
+    if thorough { 44 } else { 14 }
 }
 
 fn plan(seed: u64, index: u64, thorough: bool) -> Plan {
@@ -971,7 +1180,11 @@ fn plan(seed: u64, index: u64, thorough: bool) -> Plan {
             4 => Plan { cx: Cx { env: 2, shadow: vec![] }, kind: "registered-type-named-like-primitive", focus: vec!["i64", "Val"], forced: vec![12] },
             5 => Plan { cx: Cx { env: 3, shadow: vec![] }, kind: "registered-type-named-like-primitive", focus: vec!["bool", "Option", "Val"], forced: vec![12] },
             6 => std("one-sided-arity", vec![], vec![10, 11]),
-            _ => std("one-sided-arity", vec![], vec![10, 11, 10]),
+            7 => std("one-sided-arity", vec![], vec![10, 11, 10]),
+            // filtermaps whose payloads are built from literals nothing else
+            // constrains, below Option / List / Result / Verdict (13: one
+            // component of the payload left unresolved)
+            _ => std("literal-payload", vec![], vec![13]),
         };
     }
     let mut p = Prng::for_case(seed ^ 0x504c414e, index);
@@ -1043,7 +1256,15 @@ fn gen_script(fam: &[Entry], seed: u64, index: u64, thorough: bool) -> (Script, 
                 let want = (j + 1 + (index as usize % 2)).min(7);
                 pick_where(&mut p, &|e| e.args.len() == want)
             }
+            _ if script_kind == "literal-payload" => {
+                // walk the `lit` group: 8 targets per script, the walk starts
+                // where the seed says and continues in the next such script
+                let lit: Vec<usize> = (0..fam.len()).filter(|i| fam[*i].group == "lit").collect();
+                let nth = index as usize - (boundary_count(thorough) as usize - if thorough { 4 } else { 2 });
+                lit[(seed as usize * 5 + nth * targets_n + j) * 3 % lit.len()]
+            }
             0 | 2 | 4 | 6 => ((index as usize * 4 + j / 2) * 389 + (seed as usize % 997)) % fam.len(),
+            1 if p.chance(1, 3) => pick_where(&mut p, &|e| e.group == "lit"),
             1 => pick_where(&mut p, &|e| e.group == "fm"),
             3 => pick_where(&mut p, &|e| all(e).iter().any(has_binary)),
             5 => pick_where(&mut p, &|e| all(e).iter().any(|r| r.depth() >= 2)),
@@ -1054,7 +1275,7 @@ fn gen_script(fam: &[Entry], seed: u64, index: u64, thorough: bool) -> (Script, 
     let mut exact_of: Vec<Option<usize>> = vec![None; targets_n];
     for (j, &t) in targets.iter().enumerate() {
         let e = &fam[t];
-        let fm_shaped = e.group == "fm" || (matches!(e.ret, RT::Ver(..)) && p.chance(1, 2));
+        let fm_shaped = e.group == "fm" || e.group == "lit" || (matches!(e.ret, RT::Ver(..)) && p.chance(1, 2));
         for v in 0..variants_n {
             let which = if v == 0 {
                 0
@@ -1070,6 +1291,7 @@ fn gen_script(fam: &[Entry], seed: u64, index: u64, thorough: bool) -> (Script, 
             // verdict whose sides can be produced by the body
             let mut kind = Kind::Fn;
             let mut label2 = label;
+            let mut hole = false;
             if fm_shaped {
                 if let ST::Ver(a, r) = &ret {
                     let side = |s: &ST, p: &mut Prng| -> Option<Side> {
@@ -1084,10 +1306,25 @@ fn gen_script(fam: &[Entry], seed: u64, index: u64, thorough: bool) -> (Script, 
                         match s {
                             ST::Prim("i32") => Some(Side::IntLit),
                             ST::Prim("f64") => Some(Side::FloatLit),
-                            _ => None,
+                            // a payload the body builds: constructors around
+                            // parameters and unconstrained literals
+                            _ => buildable(s, &params, &cx).map(Side::Built),
                         }
                     };
-                    if let (Some(sa), Some(sr)) = (side(a, &mut p), side(r, &mut p)) {
+                    if let (Some(mut sa), Some(mut sr)) = (side(a, &mut p), side(r, &mut p)) {
+                        if which == 13 {
+                            // one component of a built payload stays an unresolved variable
+                            let first = p.chance(1, 2);
+                            for s in if first { [&mut sa, &mut sr] } else { [&mut sr, &mut sa] } {
+                                if let Side::Built(t) = s {
+                                    if let Some(t2) = with_hole(t, if cx.shadow.is_empty() { &params } else { &[] }, &mut p) {
+                                        *s = Side::Built(t2);
+                                        hole = true;
+                                        break;
+                                    }
+                                }
+                            }
+                        }
                         if !(sa == Side::Unused && sr == Side::Unused) {
                             kind = Kind::Filtermap(sa, sr);
                             label2 = match label {
@@ -1101,7 +1338,7 @@ fn gen_script(fam: &[Entry], seed: u64, index: u64, thorough: bool) -> (Script, 
             // what the written types denote in this script (re-declared names)
             let params: Vec<ST> = params.iter().map(|t| cx.shadowize(t)).collect();
             let ret = cx.shadowize(&ret);
-            let was_exact = label == "exact";
+            let was_exact = label == "exact" && !hole;
             if !cx.shadow.is_empty() && (params.iter().any(|t| matches!(t.why_none(), w if w.starts_with("script-type"))) || ret.why_none().starts_with("script-type")) {
                 label2 = match (&kind, label) {
                     (Kind::Filtermap(..), _) => "filtermap-redeclared-name",
@@ -1112,6 +1349,12 @@ fn gen_script(fam: &[Entry], seed: u64, index: u64, thorough: bool) -> (Script, 
             let mut d = Decl { name, kind, params, ret, label: label2, target: t };
             if let Kind::Filtermap(a, r) = &d.kind {
                 d.ret = ST::Ver(Box::new(d.side_ty(a)), Box::new(d.side_ty(r)));
+                // literal type variables below a constructor: the class the defaults must reach
+                if hole {
+                    d.label = "filtermap-unresolved-payload";
+                } else if d.ret.literal_depth().is_some_and(|k| k >= 2) && d.label != "filtermap-redeclared-name" {
+                    d.label = if d.label == "filtermap-exact" { "filtermap-nested-literal-exact" } else { "filtermap-nested-literal-near" };
+                }
             }
             // the pair with its own target, and with one or two other targets
             let di = decls.len();
@@ -1130,6 +1373,16 @@ fn gen_script(fam: &[Entry], seed: u64, index: u64, thorough: bool) -> (Script, 
             if thorough || p.chance(1, 3) {
                 let r = pick_where(&mut p, &|e| e.args.len() == ar && e.ret == fam[t].ret);
                 pairs.push(Pair { decl: Some(di), name: d.ask(), entry: r, label: format!("cross:{}", d.label) });
+            }
+            // a payload built from literals: every family member of the arity
+            // whose verdict sides differ from the defaults in width / signedness /
+            // float width / order at the literal's position
+            if matches!(d.kind, Kind::Filtermap(..)) && d.ret.has_literal() && d.ret.literal_depth() >= Some(2) {
+                for (i, e) in fam.iter().enumerate() {
+                    if i != t && e.args.len() == ar && (e.group == "lit" || e.group == "litnear") && (thorough || e.args == fam[t].args) {
+                        pairs.push(Pair { decl: Some(di), name: d.ask(), entry: i, label: "literal-payload-other-type".into() });
+                    }
+                }
             }
             // one-sided arities: also `fn() -> R` and the one-parameter prefix
             if matches!(label, "arity-plus-k-suffix" | "arity-plus-1") {
@@ -1302,6 +1555,314 @@ fn minimise_history(fam: &[Entry], rt: &Runtime<NoCtx>, src: &str, log: &[Req], 
     (log[..k].to_vec(), "whole-prefix")
 }
 
+// ------------------------------------------------ the process as a state
+
+/// One request made earlier in this worker process: (script index, name,
+/// family entry, answer). `get_function` consults the process-wide
+/// `TypeRegistry`, so what a process asked before — on *any* package — is
+/// state a wrong answer may depend on; a replay has to start from a fresh
+/// process and carry the part of that history that matters.
+type ProcReq = (u64, String, usize, String);
+
+/// What the worker knows about itself while judging.
+struct Proc {
+    seed: u64,
+    thorough: bool,
+    /// requests on the packages of earlier scripts, in order
+    log: Vec<ProcReq>,
+    /// violation classes whose first instance was examined in fresh processes ↦ the dependence found
+    class_dep: std::collections::BTreeMap<String, String>,
+    /// process histories that explained an earlier violation of this worker
+    found: Vec<Vec<ProcReq>>,
+    /// fresh-process trials left for this worker
+    budget: u32,
+}
+
+/// `[{script, env, index, requests: [{name, rust_type}…]}…]`: consecutive
+/// requests on one script share a package.
+fn proc_groups(fam: &[Entry], pc: &Proc, steps: &[ProcReq]) -> Value {
+    let mut groups: Vec<Value> = vec![];
+    let mut cur: Option<u64> = None;
+    for (idx, name, e, _) in steps {
+        if cur != Some(*idx) {
+            let (sc, _) = gen_script(fam, pc.seed, *idx, pc.thorough);
+            groups.push(json!({"index": idx, "env": sc.cx.env, "script": sc.src, "requests": []}));
+            cur = Some(*idx);
+        }
+        let g = groups.last_mut().unwrap();
+        g["requests"].as_array_mut().unwrap().push(json!({"name": name, "rust_type": fam[*e].show()}));
+    }
+    Value::Array(groups)
+}
+
+/// The answer a *fresh process* gives to the request described by `input`
+/// (`process_history`, `script`, `env`, `history`, `name`, `rust_type`).
+fn answer_in_fresh_process(input: &Value) -> Option<String> {
+    use std::io::Write;
+    use std::process::{Command, Stdio};
+    let exe = std::env::current_exe().ok()?;
+    let mut child = Command::new(exe).arg("answer").stdin(Stdio::piped()).stdout(Stdio::piped()).stderr(Stdio::null()).spawn().ok()?;
+    let text = input.to_string();
+    let mut stdin = child.stdin.take()?;
+    // the child reads all of stdin before it answers, so writing cannot block on its output
+    let w = std::thread::spawn(move || {
+        let _ = stdin.write_all(text.as_bytes());
+    });
+    let out = child.wait_with_output().ok()?;
+    let _ = w.join();
+    String::from_utf8_lossy(&out.stdout).lines().find_map(|l| l.strip_prefix("ANSWER ").map(|a| a.to_string()))
+}
+
+/// Execute a replay description in this process: the earlier packages of the
+/// process history, then the script, the earlier requests on its package, the
+/// request. Returns the canonical answer and a transcript.
+fn replay_here(fam: &[Entry], v: &Value) -> (String, Vec<String>) {
+    let mut lines = vec![];
+    let find = |ty: &str| fam.iter().find(|e| e.show() == ty).expect("rust type in family");
+    if let Some(groups) = v["process_history"].as_array() {
+        for (gi, g) in groups.iter().enumerate() {
+            let rt = runtime(g["env"].as_u64().unwrap_or(0) as usize);
+            let src = g["script"].as_str().unwrap_or("");
+            let Ok(Ok(mut pkg)) = compile(src, &rt) else {
+                lines.push(format!("earlier package {}: does not compile", gi + 1));
+                continue;
+            };
+            for r in g["requests"].as_array().map(|a| &a[..]).unwrap_or(&[]) {
+                let (hn, ht) = (r["name"].as_str().unwrap_or(""), r["rust_type"].as_str().unwrap_or(""));
+                let a = canon(&(find(ht).probe)(&mut pkg, hn));
+                if lines.len() < 40 {
+                    lines.push(format!("earlier package {} (script {}): get_function::<{ht}>({hn:?}) -> {a}", gi + 1, g["index"]));
+                }
+            }
+        }
+    }
+    let rt = runtime(v["env"].as_u64().unwrap_or(0) as usize);
+    let src = v["script"].as_str().expect("script");
+    let name = v["name"].as_str().expect("name");
+    let ty = v["rust_type"].as_str().expect("rust_type");
+    let mut pkg = FileTree::test_file("c04.roto", src, 0).compile(&rt).map_err(|e| e.to_string()).expect("compiles");
+    if let Some(h) = v["history"].as_array() {
+        for (i, r) in h.iter().enumerate() {
+            let (hn, ht) = (r["name"].as_str().unwrap_or(""), r["rust_type"].as_str().unwrap_or(""));
+            let a = canon(&(find(ht).probe)(&mut pkg, hn));
+            if lines.len() < 80 {
+                lines.push(format!("before {:>3}: get_function::<{ht}>({hn:?}) -> {a}", i + 1));
+            }
+        }
+    }
+    (canon(&(find(ty).probe)(&mut pkg, name)), lines)
+}
+
+/// Retrieve and call functions of a script in a child process (`c04 calls`):
+/// for each `(name, family entry)` the `Debug` rendering of what the call
+/// returned, `"crashed"` if the child died in it, `None` if the handle was not
+/// granted or the call was not made.
+fn calls_in_child(fam: &[Entry], src: &str, env: usize, calls: &[(String, usize)]) -> Vec<Option<String>> {
+    use std::io::Write;
+    use std::process::{Command, Stdio};
+    let mut out: Vec<Option<String>> = vec![None; calls.len()];
+    let mut from = 0usize;
+    for _ in 0..6 {
+        if from >= calls.len() {
+            break;
+        }
+        let input = json!({"script": src, "env": env,
+            "calls": calls[from..].iter().map(|(n, e)| json!({"name": n, "rust_type": fam[*e].show()})).collect::<Vec<_>>()});
+        let Ok(exe) = std::env::current_exe() else { break };
+        let Ok(mut child) = Command::new(exe).arg("calls").stdin(Stdio::piped()).stdout(Stdio::piped()).stderr(Stdio::null()).spawn() else { break };
+        if let Some(mut stdin) = child.stdin.take() {
+            let _ = stdin.write_all(input.to_string().as_bytes());
+        }
+        // the output is a few short lines: it fits the pipe, so waiting first cannot block the child
+        let start = std::time::Instant::now();
+        let mut timed_out = false;
+        loop {
+            match child.try_wait() {
+                Ok(Some(_)) => break,
+                Ok(None) if start.elapsed().as_secs() > 30 => {
+                    let _ = child.kill();
+                    timed_out = true;
+                    break;
+                }
+                Ok(None) => std::thread::sleep(std::time::Duration::from_millis(5)),
+                Err(_) => break,
+            }
+        }
+        let Ok(o) = child.wait_with_output() else { break };
+        let text = String::from_utf8_lossy(&o.stdout).to_string();
+        let mut started: Option<usize> = None;
+        let mut done = 0usize;
+        for l in text.lines() {
+            if let Some(i) = l.strip_prefix("CALL ").and_then(|x| x.parse::<usize>().ok()) {
+                started = Some(i);
+            } else if let Some(rest) = l.strip_prefix("RET ") {
+                let (i, v) = rest.split_once(' ').unwrap_or((rest, "-"));
+                if let Ok(i) = i.parse::<usize>() {
+                    if from + i < out.len() {
+                        out[from + i] = if v == "-" { None } else { Some(v.to_string()) };
+                    }
+                    done = i + 1;
+                    started = None;
+                }
+            }
+        }
+        match started {
+            // the child died (or hung) inside call number `i`
+            Some(i) if from + i < out.len() => {
+                out[from + i] = Some(if timed_out { "did not return".into() } else { "crashed".into() });
+                from += i + 1;
+            }
+            _ => {
+                if done == 0 {
+                    break;
+                }
+                from += done;
+            }
+        }
+    }
+    out
+}
+
+fn rt_ctors(r: &RT, out: &mut BTreeSet<&'static str>) {
+    match r {
+        RT::Leaf(_) => {}
+        RT::Val(_) => {
+            out.insert("Val");
+        }
+        RT::Opt(t) => {
+            out.insert("Option");
+            rt_ctors(t, out);
+        }
+        RT::List(t) => {
+            out.insert("List");
+            rt_ctors(t, out);
+        }
+        RT::Res(a, b) => {
+            out.insert("Result");
+            rt_ctors(a, out);
+            rt_ctors(b, out);
+        }
+        RT::Ver(a, b) => {
+            out.insert("Verdict");
+            rt_ctors(a, out);
+            rt_ctors(b, out);
+        }
+    }
+}
+
+fn entry_ctors(e: &Entry) -> BTreeSet<&'static str> {
+    let mut s = BTreeSet::new();
+    for r in e.args.iter().chain(std::iter::once(&e.ret)) {
+        rt_ctors(r, &mut s);
+    }
+    s
+}
+
+/// A wrong answer `wrong` was seen for the request in `base` (which carries
+/// the package-level history the in-process minimisation found). Decide in
+/// fresh processes what it depends on and return the replay input that
+/// reproduces it from a cold start, with the kind of dependence:
+///  * `none` — the request (with its package history) alone;
+///  * `package-history` — earlier requests on the same package that the
+///    in-process minimisation could not see (this process was already warm);
+///  * `one-earlier-request-in-the-process` — one request on another package;
+///  * `earlier-requests-in-the-process` — a run of them (shortest found);
+///  * `not-reproduced-in-a-fresh-process`.
+fn minimise_process_history(fam: &[Entry], pc: &mut Proc, base: &Value, pkg_prefix: &[Req], last: &Req, wrong: &str) -> (Value, &'static str) {
+    let with = |ph: Value, hist: Option<&[Req]>| -> Value {
+        let mut v = base.clone();
+        v["process_history"] = ph;
+        if let Some(h) = hist {
+            v["history"] = Value::Array(h.iter().map(|(nm, e)| json!({"name": nm, "rust_type": fam[*e].show()})).collect());
+        }
+        v
+    };
+    let trial = |pc: &mut Proc, v: &Value| -> bool {
+        if pc.budget == 0 {
+            return false;
+        }
+        pc.budget -= 1;
+        answer_in_fresh_process(v).as_deref() == Some(wrong)
+    };
+    // 1. cold start, the package history as minimised in this process
+    let v0 = with(json!([]), None);
+    if trial(pc, &v0) {
+        return (v0, "none");
+    }
+    // 2. a process history that explained an earlier violation of this worker
+    for h in pc.found.clone() {
+        let v = with(proc_groups(fam, pc, &h), None);
+        if trial(pc, &v) {
+            return (v, if h.len() == 1 { "one-earlier-request-in-the-process" } else { "earlier-requests-in-the-process" });
+        }
+    }
+    // 3. cold start, everything asked before on this package
+    let full = with(json!([]), Some(pkg_prefix));
+    if trial(pc, &full) {
+        let want = entry_ctors(&fam[last.1]);
+        let mut seen = BTreeSet::new();
+        for r in pkg_prefix.iter().filter(|r| seen.insert(r.1) && !entry_ctors(&fam[r.1]).is_disjoint(&want)).take(10) {
+            let v = with(json!([]), Some(std::slice::from_ref(r)));
+            if trial(pc, &v) {
+                return (v, "package-history");
+            }
+        }
+        return (full, "package-history");
+    }
+    // 4. one earlier request on another package: the same request first, then the first
+    // request per Rust type that shares a type constructor with this one (granted ones first)
+    let want = entry_ctors(&fam[last.1]);
+    let mut cands: Vec<ProcReq> = vec![];
+    let mut seen = BTreeSet::new();
+    for r in pc.log.iter().filter(|r| r.1 == last.0 && r.2 == last.1).take(2) {
+        cands.push(r.clone());
+    }
+    for pass in 0..2 {
+        for r in pc.log.iter() {
+            let granted = r.3 == "ok";
+            let reached = !(r.3.starts_with("dne") || r.3.starts_with("arity"));
+            if ((pass == 0 && granted) || (pass == 1 && reached && !granted)) && !entry_ctors(&fam[r.2]).is_disjoint(&want) && seen.insert((pass, r.2)) {
+                cands.push(r.clone());
+            }
+            if cands.len() >= 10 * (pass + 1) + 2 {
+                break;
+            }
+        }
+    }
+    for c in &cands {
+        let v = with(proc_groups(fam, pc, std::slice::from_ref(c)), None);
+        if trial(pc, &v) {
+            pc.found.push(vec![c.clone()]);
+            return (v, "one-earlier-request-in-the-process");
+        }
+    }
+    // 5. everything this process asked before; then the shortest prefix, then its shortest tail
+    let log = pc.log.clone();
+    let all = with(proc_groups(fam, pc, &log), Some(pkg_prefix));
+    if !trial(pc, &all) {
+        return (v0, "not-reproduced-in-a-fresh-process");
+    }
+    let (mut lo, mut hi) = (0usize, log.len());
+    while hi - lo > 1 && pc.budget > 0 {
+        let mid = (lo + hi) / 2;
+        let v = with(proc_groups(fam, pc, &log[..mid]), Some(pkg_prefix));
+        if trial(pc, &v) { hi = mid } else { lo = mid }
+    }
+    let k = hi;
+    let (mut lo, mut hi) = (0usize, k);
+    // invariant: log[lo..k] reproduces
+    while hi - lo > 1 && pc.budget > 0 {
+        let mid = (lo + hi) / 2;
+        let v = with(proc_groups(fam, pc, &log[mid..k]), Some(pkg_prefix));
+        if trial(pc, &v) { lo = mid } else { hi = mid }
+    }
+    let h = log[lo..k].to_vec();
+    let v = with(proc_groups(fam, pc, &h), Some(pkg_prefix));
+    let kind = if h.len() == 1 { "one-earlier-request-in-the-process" } else { "earlier-requests-in-the-process" };
+    pc.found.push(h);
+    (v, kind)
+}
+
 struct Judged {
     expected_ok: bool,
     class: Option<String>,
@@ -1309,7 +1870,8 @@ struct Judged {
     model: String,
 }
 
-fn run_script(fam: &[Entry], rts: &[Runtime<NoCtx>], drv: &mut Driver, rep: &mut Report, seed: u64, index: u64, thorough: bool) {
+fn run_script(fam: &[Entry], rts: &[Runtime<NoCtx>], drv: &mut Driver, rep: &mut Report, pc: &mut Proc, index: u64) {
+    let (seed, thorough) = (pc.seed, pc.thorough);
     let (script, mut pairs) = gen_script(fam, seed, index, thorough);
     let cx = script.cx.clone();
     let rt = &rts[cx.env];
@@ -1370,12 +1932,15 @@ fn run_script(fam: &[Entry], rts: &[Runtime<NoCtx>], drv: &mut Driver, rep: &mut
         (0..n).map(|k| (1u8, k)).chain((0..n).rev().map(|k| (2u8, k))).chain((0..n).map(|k| (3u8, k))).collect();
     let mut judged: Vec<Option<Judged>> = (0..n).map(|_| None).collect();
     let mut log: Vec<Req> = vec![];
+    let mut answers_log: Vec<String> = vec![];
+    let mut to_call: Vec<(usize, String)> = vec![];
     for (round, k) in order {
         let pr = &pairs[k];
         let e = &fam[pr.entry];
         let real = (e.probe)(&mut pkg, &pr.name);
         let real_s = canon(&real);
         log.push((pr.name.clone(), pr.entry));
+        answers_log.push(real_s.clone());
         rep.evaluations += 1;
         if judged[k].is_none() {
             let ans = &answers[k];
@@ -1420,25 +1985,62 @@ fn run_script(fam: &[Entry], rts: &[Runtime<NoCtx>], drv: &mut Driver, rep: &mut
                 "history": hist_json,
                 "history_kind": how,
             });
-            let dep = if how == "none" { String::new() } else { format!("history-dependent({how}):") };
-            if real == Outcome::Ok && !expected_ok {
-                rep.violation(
-                    "get_function returned a callable handle under a Rust type that is not the image of the script signature",
-                    &format!("{dep}accepts-wrong-signature:{kc}"),
-                    input,
-                );
+            let mut input = input;
+            let mut dep = if how == "none" { String::new() } else { format!("history-dependent({how}):") };
+            // The first instance of a violation class becomes a replay file: make sure it
+            // reproduces from a cold start, and find what else of this process it needs.
+            // the violation key without the dependence prefix
+            let body = if real == Outcome::Ok && !expected_ok {
+                format!("accepts-wrong-signature:{kc}")
             } else if real == Outcome::Panic {
-                rep.violation("get_function panicked instead of returning an error", &format!("{dep}panics:{kc}"), input);
+                format!("panics:{kc}")
             } else {
-                rep.violation(
-                    "get_function refused the true Rust signature of a script function",
-                    &format!(
-                        "{dep}refuses-true-signature:{}:{}",
-                        match &script.decls[pr.decl.unwrap()].kind { Kind::Fn => "fn", Kind::Filtermap(..) => "filtermap", Kind::Test => "test" },
-                        real_s.split(' ').next().unwrap_or("")
-                    ),
-                    input,
-                );
+                format!(
+                    "refuses-true-signature:{}:{}",
+                    match &script.decls[pr.decl.unwrap()].kind { Kind::Fn => "fn", Kind::Filtermap(..) => "filtermap", Kind::Test => "test" },
+                    real_s.split(' ').next().unwrap_or("")
+                )
+            };
+            let provisional = format!("{dep}{body}");
+            if let Some(d) = pc.class_dep.get(&provisional) {
+                // a later instance of a class already examined: it is reported under the same key
+                // (the first instance, which is the one examined, becomes the replay file)
+                dep = d.clone();
+                input["process_history_kind"] = json!("not-examined (a later instance of its class)");
+            } else {
+                let last = log.last().unwrap().clone();
+                let (v, phow) = minimise_process_history(fam, pc, &input, &log[..log.len() - 1], &last, &real_s);
+                input = v;
+                input["process_history_kind"] = json!(phow);
+                match phow {
+                    "none" => {}
+                    "package-history" => {
+                        input["history_kind"] = json!("earlier-requests-on-the-package(found-in-fresh-processes)");
+                        dep = "history-dependent(package):".to_string();
+                    }
+                    other => dep = format!("process-history-dependent({other}):"),
+                }
+                pc.class_dep.insert(provisional, dep.clone());
+            }
+            let key = format!("{dep}{body}");
+            if real == Outcome::Ok && !expected_ok {
+                rep.violation("get_function returned a callable handle under a Rust type that is not the image of the script signature", &key, input);
+            } else if real == Outcome::Panic {
+                rep.violation("get_function panicked instead of returning an error", &key, input);
+            } else {
+                rep.violation("get_function refused the true Rust signature of a script function", &key, input);
+            }
+        }
+        // A handle granted under the true signature of a filtermap whose payload types were
+        // inferred from literals: the code behind it must have been compiled at that very
+        // signature (`TypeInfo::convert` defaults literal types on its own). It is called
+        // after the requests, in a child process (a wrong signature is undefined behaviour).
+        if round == 1 && real == Outcome::Ok && expected_ok && e.call.is_some() {
+            if let Some(di) = pr.decl {
+                let d = &script.decls[di];
+                if let (true, Some(want)) = (d.ret.has_literal(), d.call_value(&cx)) {
+                    to_call.push((k, want));
+                }
             }
         }
         if real_s != j.model {
@@ -1475,7 +2077,7 @@ fn run_script(fam: &[Entry], rts: &[Runtime<NoCtx>], drv: &mut Driver, rep: &mut
         };
         rep.class(format!("{}|{}|{}|a{}", pr.label, kind, class_s, e.args.len()));
         // one sample per label, the trigger classes of the boundary stream first
-        let wanted = ["redeclared-name", "filtermap-redeclared-name", "named-like-primitive", "as-primitive-of-same-name", "prefix-of-parameters", "exact", "filtermap-exact", "leaf-changed", "swapped-type-args"];
+        let wanted = ["filtermap-nested-literal-exact", "filtermap-unresolved-payload", "literal-payload-other-type", "redeclared-name", "filtermap-redeclared-name", "named-like-primitive", "as-primitive-of-same-name", "prefix-of-parameters", "exact", "filtermap-exact", "leaf-changed", "swapped-type-args"];
         if pr.decl.is_some() && wanted.contains(&pr.label.as_str()) {
             let dup = rep.samples.iter().filter(|s| s["label"] == pr.label.as_str()).count();
             if dup < 1 {
@@ -1484,6 +2086,35 @@ fn run_script(fam: &[Entry], rts: &[Runtime<NoCtx>], drv: &mut Driver, rep: &mut
                     "redeclared_by_script": cx.shadow.iter().map(|s| s.0).collect::<Vec<_>>()}));
             }
         }
+    }
+    // the calls: every literal-payload script of the boundary stream, every fourth other script
+    if !to_call.is_empty() && (thorough || script.kind == "literal-payload" || index % 4 == 0) {
+        let reqs: Vec<(String, usize)> = to_call.iter().map(|(k, _)| (pairs[*k].name.clone(), pairs[*k].entry)).collect();
+        let got = calls_in_child(fam, &script.src, cx.env, &reqs);
+        for ((k, want), got) in to_call.iter().zip(got) {
+            let pr = &pairs[*k];
+            let d = &script.decls[pr.decl.unwrap()];
+            rep.evaluations += 1;
+            let same = got.as_deref() == Some(want.as_str());
+            rep.hist("called", if same { "returned the script's value" } else { "returned another value / crashed" });
+            rep.class(format!("called|{}|{}", d.label, if same { "same" } else { "other" }));
+            if !same && rep.impl_violations.len() < 200 {
+                rep.violation(
+                    "a handle granted under the documented image of an inferred signature does not return the value the script computes (the function was compiled at another signature than the one the gate checked)",
+                    &format!("granted-signature-is-not-the-compiled-one:{}", d.label),
+                    json!({
+                        "seed": seed, "index": index, "env": cx.env, "script": script.src, "function": d.show(&cx),
+                        "name": pr.name, "rust_type": fam[pr.entry].show(), "label": pr.label, "expected": "ok",
+                        "call": true, "expected_value": want, "returned": got, "real": "ok", "model": "ok",
+                        "history": [], "history_kind": "none",
+                    }),
+                );
+            }
+        }
+    }
+    // what this package was asked is, for the scripts that follow, the history of the process
+    for ((name, e), a) in log.into_iter().zip(answers_log) {
+        pc.log.push((index, name, e, a));
     }
 }
 
@@ -1568,38 +2199,90 @@ fn main() {
                     );
                 }
             }
+            let mut pc = Proc { seed, thorough, log: vec![], class_dep: Default::default(), found: vec![], budget: 160 };
             for i in from..from + n {
                 println!("START {i}");
-                run_script(&fam, &rts, &mut drv, &mut rep, seed, i, thorough);
+                run_script(&fam, &rts, &mut drv, &mut rep, &mut pc, i);
             }
         }
-        Some("replay") => {
-            // {script, env, history: [{name, rust_type}…], name, rust_type}: compile, make the
-            // earlier requests on the same package, ask, compare with the oracle stored in the file
-            let v: Value = serde_json::from_str(&args[2]).expect("replay json");
+        Some("gen") => {
+            // print script number <index> of a run and the requests made on it (for the builder)
+            let seed: u64 = args[2].parse().unwrap();
+            let thorough = args[3] == "thorough";
+            let index: u64 = args[4].parse().unwrap();
             let fam = family();
-            let env = v["env"].as_u64().unwrap_or(0) as usize;
-            let rt = runtime(env);
-            let src = v["script"].as_str().expect("script");
+            let (s, pairs) = gen_script(&fam, seed, index, thorough);
+            println!("// kind: {}  env: {}\n{}", s.kind, s.cx.env, s.src);
+            for pr in &pairs {
+                println!("// {:<32} {:<10} {}", pr.label, pr.name, fam[pr.entry].show());
+            }
+            return;
+        }
+        Some("calls") => {
+            // child of `calls_in_child`: {script, env, calls: [{name, rust_type}…]} on stdin
+            use std::io::{Read, Write};
+            let mut text = String::new();
+            std::io::stdin().read_to_string(&mut text).expect("stdin");
+            let v: Value = serde_json::from_str(&text).expect("calls json");
+            let fam = family();
+            let rt = runtime(v["env"].as_u64().unwrap_or(0) as usize);
+            let Ok(Ok(mut pkg)) = compile(v["script"].as_str().unwrap_or(""), &rt) else { return };
+            for (i, c) in v["calls"].as_array().map(|a| &a[..]).unwrap_or(&[]).iter().enumerate() {
+                let (name, ty) = (c["name"].as_str().unwrap_or(""), c["rust_type"].as_str().unwrap_or(""));
+                println!("CALL {i}");
+                let _ = std::io::stdout().flush();
+                let got = fam.iter().find(|e| e.show() == ty).and_then(|e| e.call).and_then(|call| {
+                    std::panic::catch_unwind(std::panic::AssertUnwindSafe(|| call(&mut pkg, name))).unwrap_or(Some("panicked".into()))
+                });
+                println!("RET {i} {}", got.as_deref().unwrap_or("-"));
+                let _ = std::io::stdout().flush();
+            }
+            return;
+        }
+        Some("answer") => {
+            // the answer of this (fresh) process to a replay description on stdin
+            use std::io::Read;
+            let mut text = String::new();
+            std::io::stdin().read_to_string(&mut text).expect("stdin");
+            let v: Value = serde_json::from_str(&text).expect("replay json");
+            let fam = family();
+            let (a, _) = replay_here(&fam, &v);
+            println!("ANSWER {a}");
+            return;
+        }
+        Some("replay") => {
+            // {process_history: [{script, env, requests}…], script, env, history: [{name, rust_type}…], name,
+            // rust_type}: in this fresh process make the requests on the earlier packages, compile the script, make
+            // the earlier requests on its package, ask, compare with the oracle stored in the file.
+            // `@path` reads the description from a file.
+            let text = match args[2].strip_prefix('@') {
+                Some(path) => std::fs::read_to_string(path).expect("replay file"),
+                None => args[2].clone(),
+            };
+            let v: Value = serde_json::from_str(&text).expect("replay json");
+            let fam = family();
             let name = v["name"].as_str().expect("name");
             let ty = v["rust_type"].as_str().expect("rust_type");
-            let find = |ty: &str| fam.iter().find(|e| e.show() == ty).expect("rust type in family");
-            let e = find(ty);
-            let mut pkg = FileTree::test_file("c04.roto", src, 0).compile(&rt).map_err(|e| e.to_string()).expect("compiles");
             println!("function : {}", v["function"].as_str().unwrap_or("-"));
-            if let Some(h) = v["history"].as_array() {
-                for (i, r) in h.iter().enumerate() {
-                    let (hn, ht) = (r["name"].as_str().unwrap_or(""), r["rust_type"].as_str().unwrap_or(""));
-                    let a = canon(&(find(ht).probe)(&mut pkg, hn));
-                    println!("before {:>3}: get_function::<{ht}>({hn:?}) -> {a}", i + 1);
-                }
+            let (real, lines) = replay_here(&fam, &v);
+            for l in lines {
+                println!("{l}");
             }
-            let real = canon(&(e.probe)(&mut pkg, name));
             let expected_ok = v["expected"].as_str() == Some("ok");
             println!("request  : get_function::<{ty}>({name:?})");
             println!("expected : {}", v["expected"].as_str().unwrap_or("?"));
             println!("real     : {real}");
             rep.evaluations = 1;
+            if v["call"].as_bool() == Some(true) {
+                // a granted handle, called — in a child process
+                let ei = fam.iter().position(|e| e.show() == ty).expect("rust type in family");
+                let got = calls_in_child(&fam, v["script"].as_str().unwrap_or(""), v["env"].as_u64().unwrap_or(0) as usize, &[(name.to_string(), ei)]).pop().flatten();
+                let want = v["expected_value"].as_str().unwrap_or("?");
+                println!("called   : {} — the script computes {want}", got.as_deref().unwrap_or("(not granted)"));
+                if got.as_deref() != Some(want) {
+                    rep.violation("replayed: the granted handle does not return the value the script computes", v["label"].as_str().unwrap_or("replay"), v.clone());
+                }
+            }
             if (real == "ok") != expected_ok || real == "panic" {
                 rep.violation("replayed: the gate's answer differs from the documented mapping", v["label"].as_str().unwrap_or("replay"), v.clone());
             }
